@@ -293,7 +293,10 @@ def _solve_node(c, A, b, lower, upper, minimize, eps, max_iter):
     c_red = [c[j] for j in free_vars]
     fixed_obj = sum(c[j] * fixed[j] for j in fixed)
 
-    result = solve_lp(c_red, A_red, b_red, minimize=minimize, eps=eps, max_iter=max_iter)
+    # eps is this module's integrality / feasibility tolerance; as the simplex's pivot tolerance it is far too coarse
+    # (tableau entries of 1/(k1*k2) for coefficients k1, k2 would count as zero from k1*k2 = 1e6 on), so the LP runs
+    # with its own default
+    result = solve_lp(c_red, A_red, b_red, minimize=minimize, max_iter=max_iter)
 
     if result.status != LPStatus.OPTIMAL:
         return result
